@@ -17,3 +17,25 @@ Proof. intros. apply run_lift. assumption. Qed.
 Theorem C06_release_order_irrelevant : forall h a b ha hb hab hba, HInv h -> live h a -> live h b -> a <> b ->
   free h a = Some ha -> free ha b = Some hab -> free h b = Some hb -> free hb a = Some hba -> hab = hba.
 Proof. exact free_commute. Qed.
+
+(** strip_forks clause (logic level): for EVERY well-formed acyclic netlist whose gates have selectable primitives, EVERY
+    stimulus and any value domain in which BUF1 is a plain copy, the schedule with forks stripped computes at every line
+    exactly what the schedule with forks computes *)
+From KV Require Import Model.Netlist Model.NetlistWf Model.SimOps Model.AllocCheck Model.NetlistSem Model.Prims Gen.SimTables.
+From KV Require Proofs.StripInvariance.
+From Coq Require Import String.
+Theorem C06_strip_forks_irrelevant : forall V (sem : N -> V -> V -> V -> V -> V) (zero : V) c stim len stems,
+  wf_netlist c -> comb_acyclic c -> List.length (c_lines c) <= len -> build_stems c true len = Some stems ->
+  (forall x b cc d, sem (lutv "BUF1") x b cc d = x) ->
+  (forall n, n < List.length (c_nodes c) -> iface_pos c n = None -> is_fork (get_node c n) = true ->
+     n_kind (get_node c n) = "__fork__"%string) ->
+  (forall n, n < List.length (c_nodes c) -> iface_pos c n = None -> is_fork (get_node c n) = false ->
+     select_lut kind_prefixes (n_kind (get_node c n)) (negb (is_some (pin (n_ins (get_node c n)) 2)))
+                (negb (is_some (pin (n_ins (get_node c n)) 3))) <> None) ->
+  (forall n, n < List.length (c_nodes c) -> is_dff (get_node c n) = true -> forall k o, 2 <= k -> pin (n_outs (get_node c n)) k = Some o -> False) ->
+  (forall n, n < List.length (c_nodes c) -> iface_pos c n = None -> is_fork (get_node c n) = false ->
+     forall k o, 1 <= k -> pin (n_outs (get_node c n)) k = Some o -> False) ->
+  forall l, l < List.length (c_lines c) ->
+    iexec sem (stemmed stems) (build_ops c true) (init_env zero c stim) (stemmed stems l)
+    = iexec sem (fun x => x) (build_ops c false) (init_env zero c stim) l.
+Proof. intros V sem zero. exact (KV.Proofs.StripInvariance.strip_forks_irrelevant sem zero). Qed.
